@@ -386,6 +386,9 @@ SOLS = {
     'stag3': (400, [_ll(3000., 11000.), _ll(3800., 9200.), _ll(5000., 7000.)]),
     'curv2': (400, [_ll(3500., 10500.) + [0.012], _ll(3600., 10400.) + [-0.015, 0.004]]),
     'rev2': (400, [_ll(11000., 3000.), _ll(9200., 3800.)]),
+    # identical first and last wavelength in every trace, different dispersion in between (c*(P2 - P0) vanishes at both ends)
+    'ends3': (400, [_ll(3000., 11000.), [_ll(3000., 11000.)[0] - 0.02, _ll(3000., 11000.)[1], 0.02],
+                    [_ll(3000., 11000.)[0] + 0.015, _ll(3000., 11000.)[1], -0.015]]),
     'short2': (60, [_ll(4300., 5300.), _ll(8800., 10800.)]),
     # thin overlaps: a handful of pixels reach into the blue wing of g, the red wing of g, the blue wing of u; summed weight
     # 3e-8 .. 7e-8 (about 1e-6 of the band), positive but below the float32 machine epsilon
@@ -608,6 +611,19 @@ def check_ft(case):
                     bad.append(('filter_thru:depends-on-masked-values' + trig,
                                 'trace %d: masked pixels set to %r change the result by %s' % (t, wv, (res[t * g + r] - res[t * g]).tolist())))
                     done = True
+    if case.get('alone'):
+        # "per trace and band": the answer for a trace does not depend on which other traces share the call
+        for t in range(ntr):
+            sl = slice(t * g, (t + 1) * g)
+            try:
+                r1 = ft_call(cfg, fin[sl], None if mask is None else np.asarray(mask)[sl], nx, coeff[sl], loglam[sl])
+            except Exception as e:
+                bad.append(('filter_thru:exception:%s:single-trace-call' % type(e).__name__, repr(e)))
+                break
+            if r1.shape != (g, 5) or not np.all(np.abs(r1 - res[sl]) <= tol * scale[sl][:, None]):
+                bad.append(('filter_thru:trace-result-depends-on-the-other-traces-in-the-call',
+                            'trace %d alone %s, in the %d-trace call %s' % (t, r1.tolist(), ntr, res[sl].tolist())))
+                break
     nt_ = bool(sure.any())
     ndc = int((ov[::g] == -1).sum())
     if bad:
@@ -621,13 +637,15 @@ def check_ft(case):
 def ft_configs(tier):
     T = tier == 'thorough'
     cfgs = []
-    for sol in ['full3', 'stag3', 'curv2', 'rev2', 'short2', 'wing3']:
+    for sol in ['full3', 'stag3', 'curv2', 'rev2', 'short2', 'wing3', 'ends3']:
         for form in ('waveimg', 'wset'):
             for dtype in ('f8', 'f4'):
                 for toair in (False, True):
                     if not T and sol == 'wing3' and toair and dtype == 'f8':
                         continue
                     if not T and (dtype == 'f4' or toair) and sol not in ('full3', 'stag3', 'wing3'):
+                        continue
+                    if not T and sol == 'ends3' and form == 'wset':
                         continue
                     cfgs.append({'sol': sol, 'form': form, 'dtype': dtype, 'toair': toair})
     return cfgs
@@ -787,8 +805,10 @@ def run_task(task):
                     f1 = {'c': 0.0, 'imp': [[order[0], 1.0]]}
                     f2 = {'c': c0, 'imp': [[order[1], amp]]}
                     f3 = {'c': b * c0, 'imp': [[order[0], a], [order[1], b * amp]]}
-                    _do_ft(acc, {'f': 'ft', 'cfg': cfg, 'mask': task['mask'], 'rel': 'lin', 'rows': [f1, f2, f3],
-                                 'ab': [a, b], 'ncomb': nc})
+                    case = {'f': 'ft', 'cfg': cfg, 'mask': task['mask'], 'rel': 'lin', 'rows': [f1, f2, f3], 'ab': [a, b], 'ncomb': nc}
+                    if j == i + 1 and (a, b) != (1.0, 1.0) and order == (i, j):
+                        case['alone'] = True        # each trace also on its own, once per adjacent pair of comb pixels
+                    _do_ft(acc, case)
     elif k == 'ftlay':
         cfg, nc = task['cfg'], task['ncomb']
         nx = SOLS[cfg['sol']][0]
